@@ -1667,3 +1667,140 @@ def derive_schema(old_spec, new_spec, mode):
     target = src if mode == "in_place" else src.clone()
     _apply_spec_difference(target, old_spec, new_spec)
     return (ref if mode == "in_place" else src), target
+
+
+# ------------------------------------------------------------------ several violations stacked on ONE member (C13)
+FIELD_STACK = ["type", "argname", "argtype", "resolver", "dup"]
+
+
+def stack_on_member(rng, spec, target, parts, bad_name=None):
+    """put the violations [parts] (always including an ill-formed name) on one member of kind
+    [target] in field / input_field / arg / dir_arg / enum_value; returns (spec', injected labels) or None"""
+    sp = copy.deepcopy(spec)
+    bad = bad_name or rng.choice(["bad-name", "__f", "1x", "a b", "café"])
+    outs = [t["name"] for t in sp["types"] if t["kind"] in ("object", "interface", "union")]
+    ins = [t["name"] for t in sp["types"] if t["kind"] == "input"]
+    inj = []
+    if target == "field":
+        required = {g["name"] for it in _of_kind(sp, "interface") for g in it["fields"]}
+        cands = [(td, f) for td in _composites(sp) for f in td["fields"]
+                 if td["kind"] == "object" and f["name"] not in required]
+        if not cands or ("type" in parts and not ins):
+            return None
+        td, f = rng.choice(cands)
+        f["name"] = bad
+        inj.append(["LInvalidName", [bad]])
+        tn = td["name"]
+        if "type" in parts:
+            f["type"] = rand_wrap(rng, rng.choice(ins))
+            inj.append(["LFieldNotOutput", [tn, bad]])
+        if "argname" in parts:
+            an = rng.choice(["arg-x", "__a"])
+            f["args"].append({"name": an, "type": N("Int"), "default": None})
+            inj.append(["LInvalidName", [an]])
+        if "argtype" in parts:
+            f["args"].append({"name": "objarg", "type": rand_wrap(rng, rng.choice(outs)), "default": None})
+            inj.append(["LArgNotInput", [tn, bad, "objarg"]])
+        if "resolver" in parts:
+            f["resolver"] = [["root", "PK", False]]
+            inj.append(["LResPositional", [tn, bad]])
+        if "dup" in parts:
+            g = copy.deepcopy(f)
+            g["type"], g["args"], g["resolver"] = N("Int"), [], None
+            td["fields"].insert(td["fields"].index(f) + 1, g)
+            inj.append(["LDuplicateField", [tn, bad]])
+            inj.append(["LInvalidName", [bad]])
+        return sp, inj
+    if target == "input_field":
+        cands = [(td, f) for td in _of_kind(sp, "input") for f in td["fields"]]
+        if not cands or ("type" in parts and not outs):
+            return None
+        td, f = rng.choice(cands)
+        f["name"], f["default"] = bad, None
+        inj.append(["LInvalidName", [bad]])
+        if "type" in parts:
+            f["type"] = rand_wrap(rng, rng.choice(outs))
+            inj.append(["LInputFieldNotInput", [td["name"], bad]])
+        if "dup" in parts:
+            td["fields"].append({"name": bad, "type": N("Int"), "default": None})
+            inj.append(["LDuplicateField", [td["name"], bad]])
+            inj.append(["LInvalidName", [bad]])
+        return sp, inj
+    if target in ("arg", "dir_arg"):
+        if target == "arg":
+            cands = [(td["name"], f["name"], f["args"]) for td in _composites(sp) for f in td["fields"] if f["args"]]
+        else:
+            cands = [(d["name"], None, d["args"]) for d in sp["directives"] if d["args"]]
+        if not cands or ("type" in parts and not outs):
+            return None
+        tn, fn, args = rng.choice(cands)
+        a = rng.choice(args)
+        a["name"], a["default"] = bad, None
+        inj.append(["LInvalidName", [bad]])
+        path = [tn, fn, bad] if target == "arg" else [tn, bad]
+        if "type" in parts:
+            a["type"] = rand_wrap(rng, rng.choice(outs))
+            inj.append(["LArgNotInput" if target == "arg" else "LDirArgNotInput", path])
+        if "dup" in parts:
+            args.append({"name": bad, "type": N("Int"), "default": None})
+            inj.append(["LDuplicateArg" if target == "arg" else "LDirDuplicateArg", path])
+            inj.append(["LInvalidName", [bad]])
+        return sp, inj
+    if target == "enum_value":
+        td = rng.choice(_of_kind(sp, "enum"))
+        names = rng.sample(["bad-name", "__v", "1v", "v v"], min(len(td["values"]), 1 + len(parts)))
+        for v, nm in zip(td["values"], names):
+            v["name"] = nm
+            inj.append(["LInvalidName", [nm]])
+        return sp, inj
+    raise ValueError(target)
+
+
+# ------------------------------------------------------------------ objects implementing several interfaces (C20)
+def gen_multi_iface_spec(rng, via="code", n_ifaces=None):
+    """Query + 2-4 interfaces with one field each + objects implementing all / most of them"""
+    k = n_ifaces or rng.randint(2, 4)
+    fld = lambda n, t="Int": {"name": n, "type": N(t), "args": [], "depr": None, "resolver": None}  # noqa: E731
+    ifaces = [{"kind": "interface", "name": "If%d" % i, "fields": [fld("if%d_f" % i)]} for i in range(k)]
+    objs = []
+    for j in range(rng.randint(1, 2)):
+        impl = list(range(k)) if j == 0 else sorted(rng.sample(range(k), rng.randint(1, k)))
+        rng.shuffle(impl)
+        objs.append({"kind": "object", "name": "Ob%d" % j, "interfaces": ["If%d" % i for i in impl],
+                     "default_resolver": None,
+                     # every interface's field is there, implemented or not (so that adding is one edit)
+                     "fields": [fld("if%d_f" % i) for i in range(k)] + [fld("own%d" % j, "String")]})
+    q = {"kind": "object", "name": "Query", "interfaces": [], "default_resolver": None,
+         "fields": [fld("ob%d" % j, o["name"]) for j, o in enumerate(objs)] + [fld("any", "If0")]}
+    types = [q] + objs + ifaces
+    rng.shuffle(types)
+    return {"types": types, "directives": [], "query": "Query", "mutation": None, "subscription": None,
+            "default_resolver": None, "via": via}
+
+
+def interface_list_edits(spec):
+    """every reordering-free elementary variation of the `implements` lists: (kind, spec', descriptor)
+    for: a permutation (reversed and rotated: no change expected), removing the interface at every
+    position, adding a missing interface at every position"""
+    out = []
+    allif = [t["name"] for t in spec["types"] if t["kind"] == "interface"]
+    for idx, td in enumerate(spec["types"]):
+        if td["kind"] != "object" or not td["interfaces"]:
+            continue
+        cur = td["interfaces"]
+
+        def variant(new_list):
+            sp = copy.deepcopy(spec)
+            sp["types"][idx]["interfaces"] = list(new_list)
+            return sp
+        if len(cur) >= 2:
+            out.append(("permute", variant(list(reversed(cur))), None))
+            out.append(("permute", variant(cur[1:] + cur[:1]), None))
+        for pos in range(len(cur)):
+            out.append(("remove", variant(cur[:pos] + cur[pos + 1:]),
+                        {"edit": "remove_interface", "path": [td["name"], cur[pos]]}))
+        for missing in [i for i in allif if i not in cur]:
+            for pos in range(len(cur) + 1):
+                out.append(("add", variant(cur[:pos] + [missing] + cur[pos:]),
+                            {"edit": "add_interface", "path": [td["name"], missing]}))
+    return out
